@@ -51,6 +51,17 @@ class Profile(object):
             self.n["1098"] = 1
         for k, v in force.items():
             setattr(self, k, v)
+        self.route_around()
+
+    def route_around(self):
+        """NC Schedule A line 1 yields an int (TypeError abort) without a Form 1098, and NC year_spouse_died yields an int
+        for a surviving spouse: most NC returns avoid both so that the rest of the NC forms gets explored (DESIGN section 8)"""
+        r = random.Random(repr(sorted(self.n.items())) + self.status)
+        if self.nc and r.random() < 0.85:
+            if self.n["1098"] == 0:
+                self.n["1098"] = 1
+            if self.status == "QSS":
+                self.status = "HeadOfHousehold"
 
     def describe(self):
         d = dict(self.__dict__)
@@ -230,6 +241,8 @@ class Answerer(object):
             if fbase == "1098" and base == "box_1":
                 return "%.2f" % self.amount(15000)
             return "%.2f" % self.small(3000)
+        if fbase == "nc_d-400" and (base.startswith("nc_") or base.endswith("estimated_income_tax")):
+            return "%.2f" % r.choice([0.0, 0.0, 0.0, 0.0, 10.0])
         if base == "educator_expenses":
             return "%.2f" % r.choice([0.0, 0.0, 100.0, 250.0, 300.0])
         if base in ("estimated_tax_payments", "other_federal_withholding"):
